@@ -48,6 +48,12 @@ type Case struct {
 	SMTP      string `json:"smtp"`      // "" | greeted | data  (session open at shutdown; only when nothing fails)
 	POP3      string `json:"pop3"`      // "" | auth
 	Early     bool   `json:"early"`     // cancel right after Start, without waiting for ready / the failure
+	// Busy: the idle timeouts are 400 ms and the open sessions keep talking (a command or a
+	// line of data every 100 ms) for 1.2 s after shutdown was requested before they finish.
+	Busy bool `json:"busy,omitempty"`
+	// BusyPOP3: with Busy and both sessions open, the SMTP session quits right after shutdown was
+	// requested so that the sequence reaches the POP3 drain while the POP3 session is still active.
+	BusyPOP3 bool `json:"busy_pop3,omitempty"`
 }
 
 var prop = hx.Prop[Case]{
@@ -70,6 +76,13 @@ var prop = hx.Prop[Case]{
 		if c.Fail == "" && !c.Early {
 			c.SMTP = rapid.SampledFrom([]string{"", "greeted", "data", "data"}).Draw(t, "smtp")
 			c.POP3 = rapid.SampledFrom([]string{"", "auth"}).Draw(t, "pop3")
+			c.Busy = (c.SMTP != "" || c.POP3 != "") && rapid.IntRange(0, 2).Draw(t, "busy") == 0
+			c.BusyPOP3 = c.Busy && c.POP3 != "" && rapid.Bool().Draw(t, "busypop3")
+			if c.Busy && c.SMTP == "data" {
+				// the DATA phase has one deadline for the whole block (it is not re-armed per
+				// line), so a transfer cannot be stretched beyond the timeout; commands can
+				c.SMTP = "greeted"
+			}
 		}
 		return c
 	},
@@ -126,6 +139,9 @@ func run(c Case) *hx.Outcome {
 		return o
 	}
 	conf.Web.Addr = "127.0.0.1:0"
+	if c.Busy {
+		conf.SMTP.Timeout, conf.POP3.Timeout = 400*time.Millisecond, 400*time.Millisecond
+	}
 	conf.Storage.Type = c.Backend
 	conf.Storage.RetentionPeriod = time.Duration(c.Retention) * time.Second
 	if c.Backend == "file" {
@@ -288,6 +304,36 @@ func run(c Case) *hx.Outcome {
 		if pc != nil && step.Load() >= 2 {
 			fail("drain-early", "POP3Server.Drain returned while a POP3 session is still open")
 		}
+	}
+	if c.BusyPOP3 && sc != nil {
+		if l, err := sc.cmd("QUIT"); err != nil || !strings.HasPrefix(l, "221") {
+			fail("session-cut", "QUIT on the SMTP session open at shutdown answered %q (err %v)", l, err)
+		}
+		_ = sc.c.Close()
+		sc = nil
+	}
+	if c.Busy && !o.Failed() {
+		// sessions that stay active outlive the idle timeout: the drains have to wait for them
+		for i := 0; i < 12 && !o.Failed(); i++ {
+			time.Sleep(100 * time.Millisecond)
+			if sc != nil {
+				if l, err := sc.cmd("NOOP"); err != nil || !strings.HasPrefix(l, "250") {
+					fail("session-cut", "an SMTP session sending NOOP every 100 ms (idle timeout 400 ms) got %q (err %v) %d ms after shutdown was requested", l, err, (i+1)*100)
+				}
+				if step.Load() >= 1 {
+					fail("drain-early", "SMTPServer.Drain returned %d ms after shutdown was requested while an active SMTP session is still open", (i+1)*100)
+				}
+			}
+			if pc != nil {
+				if l, err := pc.cmd("NOOP"); err != nil || !strings.HasPrefix(l, "+OK") {
+					fail("session-cut", "a POP3 session sending NOOP every 100 ms (idle timeout 400 ms) got %q (err %v) %d ms after shutdown was requested", l, err, (i+1)*100)
+				}
+				if step.Load() >= 2 {
+					fail("drain-early", "POP3Server.Drain returned %d ms after shutdown was requested while an active POP3 session is still open", (i+1)*100)
+				}
+			}
+		}
+		o.Class("sessions active beyond the idle timeout")
 	}
 	// the open sessions complete
 	if sc != nil {
